@@ -754,11 +754,15 @@ static void gen_round3(rng &r, bool th)
                 else if (y < 75) { sc += 'a'; cnt = cnt < n ? cnt + 1 : 0; }
                 else if (y < 80) { sc += 'c'; cnt = 0; }
                 else if (y < 86) { sc += 'z'; cnt = 0; }
-                else if (y < 94) sc += 'y';
+                else if (y < 91) sc += 'y';
+                else if (y < 96) sc += 'g';
                 else sc += 'm';
             }
             P("lifecount " + S(n) + " " + sc);
         }
+    for (const char *sc : {"g", "ug", "ugouga", "guog", "Ug", "Og", "ygm", "zgcg"})
+        for (int n : {1, 2, 3}) P("lifecount " + S(n) + " " + sc);
+    P("lifecount 3 uuugooog");
     // (g) cyclic_buffer[i] for negative i down to the boundary counter - size + 1 (admissible: counter - i < size)
     for (int n = 1; n <= 6; n++)
     {
